@@ -599,6 +599,17 @@ def f_planuse(use=1, chain=2, src="x", psrc="c", need="OPTIONAL"):
     return {"plan.py": script(root), "sub.py": script(sub), "src.txt": src + "\n", "cfg.txt": psrc + "\n"}
 
 
+def f_failwrite(fail=0, present=1, src="x", outdir="."):
+    """W: ./w.py writes w.out from src.txt; with fail=1 it writes other content and then fails.
+    present=0: the plan no longer defines W."""
+    out = "w.out" if outdir == "." else f"{outdir}/w.out"
+    w = [["write", out, ["src.txt"], "failing"], ["exit", 1]] if fail else [["write", out, ["src.txt"]]]
+    root = [["static", "src.txt", "w.py"]]
+    if present:
+        root.append(["run", "./w.py", {"inp": ["src.txt"], "out": [out]}])
+    return {"plan.py": script(root), "w.py": script(w), "src.txt": src + "\n"}
+
+
 def f_latestatic(gap=1, cfg="c"):
     """The top plan consumes cfg.txt (amended), starts a sub-plan and only afterwards declares the
     static file late.txt, which a step of the sub-plan (./work.py) amends. An edit of cfg.txt
